@@ -10,6 +10,30 @@ package types
 //@ invariant Func(f) = f.Fn != nil
 //@ invariant `func([]MalType) (MalType, error)`(f) = f != nil
 
+//@ func NewHashMap(seq) (r, e)
+//@   panics never
+//@   assigns nothing
+
+//@ func NewSet(seq) (r, e)
+//@   panics never
+//@   assigns nothing
+
+//@ func (*Position).Copy(p) (r)
+//@   panics never
+//@   assigns nothing
+//@   ensures (r == nil) == (p == nil)
+
+//@ func (*Position).Close(c, here) (r)
+//@   requires c != nil && here != nil
+//@   panics never
+//@   assigns nothing
+//@   ensures r != nil
+
+//@ func (Token).GetPosition(token) (r)
+//@   panics never
+//@   assigns nothing
+//@   ensures r != nil
+
 //@ field types.MalFunc.Eval(ctx, ast, env) (res, err)
 //@   requires validEnvVal(env)
 //@   panics never
@@ -19,8 +43,11 @@ package types
 //@   panics never
 //@   ensures err != nil || validEnvVal(r)
 
+// builtins may change atoms, scopes and the outside world, but cannot reach a reader's
+// private token cursor (unexported type of package reader)
 //@ field types.Func.Fn(ctx, args) (res, err)
 //@   panics never
+//@   preserves comp:cell:reader_tokenReader
 
 //@ func GetSlice(seq) (r, err)
 //@   panics never
